@@ -422,6 +422,107 @@ func (p *c15Pkg) callees(q string) []string {
 	return out
 }
 
+// ---- module data swaps: does the reload touch the value it replaced? ------------------------------------------------
+
+func selText(e ast.Expr) string {
+	switch v := e.(type) {
+	case *ast.Ident:
+		return v.Name
+	case *ast.SelectorExpr:
+		if x := selText(v.X); x != "" {
+			return x + "." + v.Sel.Name
+		}
+	case *ast.ParenExpr:
+		return selText(v.X)
+	case *ast.StarExpr:
+		return selText(v.X)
+	}
+	return ""
+}
+
+// swapFacts: every function of the package that assigns a field of its receiver while holding a mutex (the data
+// swap), with whether it also calls a method on / passes on the PREVIOUS value of that field (a local defined from the
+// field before the swap, or the field itself before the assignment) — e.g. `old := m.geoDB; …; old.Close()`.
+func swapFacts(repo, rel string) ([]string, error) {
+	pk, err := c15Load(filepath.Join(repo, rel), nil)
+	if err != nil {
+		return nil, err
+	}
+	var out []string
+	for _, q := range pk.order {
+		fd := pk.funcs[q]
+		if fd.Recv == nil || len(fd.Recv.List) != 1 || len(fd.Recv.List[0].Names) != 1 {
+			continue
+		}
+		recv := fd.Recv.List[0].Names[0].Name
+		locks := false
+		var swaps []struct {
+			field string
+			pos   token.Pos
+		}
+		ast.Inspect(fd.Body, func(n ast.Node) bool {
+			switch v := n.(type) {
+			case *ast.CallExpr:
+				if lockCallKind(v) > 0 {
+					locks = true
+				}
+			case *ast.AssignStmt:
+				if v.Tok == token.ASSIGN {
+					for _, l := range v.Lhs {
+						if t := selText(l); strings.HasPrefix(t, recv+".") && strings.Count(t, ".") == 1 {
+							swaps = append(swaps, struct {
+								field string
+								pos   token.Pos
+							}{t, v.Pos()})
+						}
+					}
+				}
+			}
+			return true
+		})
+		if !locks || len(swaps) == 0 {
+			continue
+		}
+		touches := false
+		for _, sw := range swaps {
+			olds := map[string]bool{}
+			ast.Inspect(fd.Body, func(n ast.Node) bool {
+				if v, ok := n.(*ast.AssignStmt); ok && len(v.Lhs) == len(v.Rhs) {
+					for i, r := range v.Rhs {
+						if selText(r) == sw.field && v.Pos() < sw.pos {
+							if id, ok := v.Lhs[i].(*ast.Ident); ok {
+								olds[id.Name] = true
+							}
+						}
+					}
+				}
+				return true
+			})
+			ast.Inspect(fd.Body, func(n ast.Node) bool {
+				c, ok := n.(*ast.CallExpr)
+				if !ok {
+					return true
+				}
+				if sel, ok := c.Fun.(*ast.SelectorExpr); ok {
+					x := selText(sel.X)
+					if olds[x] || (x == sw.field && c.Pos() < sw.pos) {
+						touches = true
+					}
+				}
+				for _, a := range c.Args {
+					if olds[selText(a)] {
+						touches = true
+					}
+				}
+				return true
+			})
+		}
+		out = append(out, fmt.Sprintf("  (%s, %v)", leanStr(filepath.Base(rel)+":"+q), touches))
+	}
+	sort.Strings(out)
+	return out, nil
+}
+
 func init() {
 	register("C15", func(repo string) (string, error) {
 		srvPkg, err := c15Load(filepath.Join(repo, "bfe_server"), nil)
@@ -701,7 +802,20 @@ func init() {
 			}
 			fmt.Fprintf(&b, "  (%s, %d, %v)%s\n", leanStr(e.fn), e.idx, e.released, sep)
 		}
-		b.WriteString("]\n")
+		b.WriteString("]\n\n")
+		var swaps []string
+		for _, rel := range []string{"bfe_modules/mod_geo", "bfe_modules/mod_block", "bfe_modules/mod_redirect", "bfe_modules/mod_rewrite"} {
+			l, err := swapFacts(repo, rel)
+			if err != nil {
+				return "", err
+			}
+			if len(l) == 0 {
+				return "", fmt.Errorf("%s: no data swap under a lock found", rel)
+			}
+			swaps = append(swaps, l...)
+		}
+		b.WriteString("/-- module data reloads: every method that replaces a field of its receiver under a mutex:\n    (package:function, it calls a method on / passes on the value it replaced) -/\n")
+		b.WriteString("def moduleSwaps : List (String × Bool) := [\n" + strings.Join(swaps, ",\n") + "\n]\n")
 		b.WriteString(footer("C15"))
 		return b.String(), nil
 	})
